@@ -96,6 +96,10 @@ def _observe_encode(args, result):
     import segno
     rec = State.rec
     rec.count('encode_observed')
+    if not isinstance(args.get('content'), (str, bytes, bytearray, int, list, tuple)) and isinstance(rec.case, dict) \
+            and isinstance(rec.case.get('content'), list):
+        # the driver handed a one-shot iterator over: the parts are the ones of the case
+        args = dict(args, content=rec.case['content'])
     try:
         q, meta = _meta_of(segno, result)
     except Exception as ex:  # noqa: BLE001
